@@ -64,6 +64,8 @@ func c18History(r *rand.Rand, n int) Case {
 		c18Tags = []string{"prod", "preprod", "pro"}
 	} else if r.Intn(4) == 0 { // a tag is a name, not a pattern
 		c18Tags = []string{"items[0]", "items0", "[draft"}
+	} else if r.Intn(5) == 0 { // ... and the empty string is a tag like any other
+		c18Tags = []string{"prod", "", "eu"}
 	}
 	// the document OBJECT currently stored under a name (a caller may re-register the very object, e.g. to re-tag it)
 	objs := map[string]dom.ContainerBuilder{}
@@ -368,6 +370,9 @@ func init() {
 			}
 			if idx%128 == 5 && idx < 1024 {
 				return c18BigReader(r, idx)
+			}
+			if idx%64 == 9 { // a long-lived set: more than a hundred adds, most of them re-adds of the same few names
+				return c18History(r, 180+r.Intn(60))
 			}
 			if idx%8 == 3 {
 				c18ManyUnnamed = true
